@@ -39,11 +39,21 @@ def make_trace(prop, seed, index, tier):
     return t
 
 
-def run_trace(prop, trace):
+def _run_trace_here(prop, trace):
     eng = engine_for(prop)
     if hasattr(eng, "execute_for"):
         return eng.execute_for(prop, trace)
     return eng.execute(trace)
+
+
+def run_trace(prop, trace):
+    """one simulated run, in its own forked child (see core.isolated)"""
+    return core.isolated(_run_trace_here, prop, trace)
+
+
+def _gen_and_run(prop, seed, index, tier):
+    tr = make_trace(prop, seed, index, tier)
+    return tr, _run_trace_here(prop, tr)
 
 
 def signature(v):
@@ -70,8 +80,10 @@ def _chunk(args):
         n = n_nt = n_ff = steps = 0
         eng = engine_for(prop)
         for i in indices:
-            tr = make_trace(prop, seed, i, tier)
-            res = run_trace(prop, tr)
+            if getattr(eng, "ISOLATE_RUNS", False):
+                tr, res = core.isolated(_gen_and_run, prop, seed, i, tier)
+            else:
+                tr, res = _gen_and_run(prop, seed, i, tier)
             td = core.digest({k: tr[k] for k in tr if k not in ("verif_seed", "run_index")})
             ed = core.digest(res["events"])[:16]
             h.update(("%d:%s;" % (i, ed)).encode())
